@@ -10,6 +10,8 @@ import (
 	"runtime/debug"
 	"sort"
 	"strings"
+	"syscall"
+	"time"
 
 	"verifharness/gen"
 )
@@ -62,20 +64,20 @@ type Violation struct {
 
 // ShardResult is what a worker reports.
 type ShardResult struct {
-	Evaluations int            `json:"evaluations"`
-	PerStratum  map[string]int `json:"per_stratum"`
-	Features    map[string]int `json:"features"`
-	Skips       map[string]int `json:"skips"`
-	Violations  []Violation    `json:"violations"`
-	NViolations int            `json:"n_violations"`
-	VioByStratum map[string]int `json:"violations_by_stratum"`
-	VioByReason  map[string]int `json:"violations_by_reason"`
-	Known       map[string]int `json:"known"`
-	KnownFirst  map[string]Violation `json:"known_first"`
-	Samples     []any          `json:"samples"`
-	Hashes      []uint64       `json:"-"`
-	Extra       map[string]map[string]int `json:"extra"` // named sets, e.g. transitions seen
-	Inconclusive map[string]int           `json:"inconclusive"`
+	Evaluations  int                       `json:"evaluations"`
+	PerStratum   map[string]int            `json:"per_stratum"`
+	Features     map[string]int            `json:"features"`
+	Skips        map[string]int            `json:"skips"`
+	Violations   []Violation               `json:"violations"`
+	NViolations  int                       `json:"n_violations"`
+	VioByStratum map[string]int            `json:"violations_by_stratum"`
+	VioByReason  map[string]int            `json:"violations_by_reason"`
+	Known        map[string]int            `json:"known"`
+	KnownFirst   map[string]Violation      `json:"known_first"`
+	Samples      []any                     `json:"samples"`
+	Hashes       []uint64                  `json:"-"`
+	Extra        map[string]map[string]int `json:"extra"` // named sets, e.g. transitions seen
+	Inconclusive map[string]int            `json:"inconclusive"`
 }
 
 func NewShardResult() *ShardResult {
@@ -299,6 +301,43 @@ func Safe(f func()) (panicked string) {
 	}()
 	f()
 	return ""
+}
+
+// SafeBounded runs f like Safe, in a goroutine of its own, and gives up once
+// THIS PROCESS has consumed cpuSeconds of CPU time since the call began
+// without f returning. The measure is CPU time (getrusage), not wall-clock: a
+// starved process on a loaded machine accumulates none, a call that spins
+// accumulates one second per second. A call that is given up keeps spinning
+// until the worker exits; the monitor goes on with the next case.
+func SafeBounded(f func(), cpuSeconds float64) (panicked string, finished bool) {
+	done := make(chan string, 1)
+	go func() { done <- Safe(f) }()
+	select {
+	case p := <-done:
+		return p, true
+	case <-time.After(5 * time.Millisecond):
+	}
+	start := cpuNow()
+	t := time.NewTicker(50 * time.Millisecond)
+	defer t.Stop()
+	for {
+		select {
+		case p := <-done:
+			return p, true
+		case <-t.C:
+			if cpuNow()-start > cpuSeconds {
+				return "", false
+			}
+		}
+	}
+}
+
+func cpuNow() float64 {
+	var ru syscall.Rusage
+	if syscall.Getrusage(syscall.RUSAGE_SELF, &ru) != nil {
+		return 0
+	}
+	return float64(ru.Utime.Sec) + float64(ru.Utime.Usec)/1e6 + float64(ru.Stime.Sec) + float64(ru.Stime.Usec)/1e6
 }
 
 // ---- replay files ----
